@@ -112,6 +112,27 @@ func c18Programs(nOps int, family string) []c18Prog {
 	return out
 }
 
+// c18Relisten: some protocol is closed and registered again, and a connection of it exists.
+func c18Relisten(p c18Prog) bool {
+	for _, t := range [][3]c18Op{{c18LS, c18XS, c18C5}, {c18LH, c18XH, c18CG}} {
+		state := 0
+		for _, o := range p {
+			switch {
+			case state == 0 && o == t[0]:
+				state = 1
+			case state == 1 && o == t[1]:
+				state = 2
+			case state == 2 && o == t[0]:
+				state = 3
+			}
+		}
+		if state == 3 && p.count(t[2]) > 0 {
+			return true
+		}
+	}
+	return false
+}
+
 // c18ProgramsUpTo: every program of 1..maxOps operations of the family, shortest first.
 func c18ProgramsUpTo(maxOps int, family string) []c18Prog {
 	var out []c18Prog
@@ -150,6 +171,19 @@ type c18Mux struct {
 	pendingL  [2]int // Listen operations not yet executed, per protocol (0 socks, 1 http)
 	deleted   int
 	nconn     int
+	// crashOnly: connection clauses are logged, not failed (scenario "mux-relisten", whose
+	// programs are also explored with the full oracle in scenario "mux"; it exists so that a
+	// crash is reported under its own signature even while a connection-leak defect reachable
+	// by the same programs cuts the exploration of "mux" short).
+	crashOnly bool
+}
+
+func (m *c18Mux) fail(format string, a ...any) {
+	if m.crashOnly {
+		m.e.Logf("(not judged here) "+format, a...)
+		return
+	}
+	m.e.Fail(format, a...)
 }
 
 func c18Proto(socks bool) int {
@@ -234,24 +268,28 @@ func (m *c18Mux) run(op c18Op) {
 		s.closed = true
 		_ = s.l.Close()
 		e.Logf("%s#%d", c18OpNames[op], s.idx)
-	case c18C5, c18CG, c18CE:
-		rec := &c18ConnRec{idx: m.nconn, first: -1}
-		m.nconn++
-		switch op {
-		case c18C5:
-			rec.first, rec.preload = 5, []byte{5, 1, 0}
-		case c18CG:
-			rec.first, rec.preload = 'G', []byte("GET")
-		}
-		rec.cli, rec.srv = vnet.Pipe(fmt.Sprintf("cli%d", rec.idx), fmt.Sprintf("conn%d", rec.idx), 64)
-		if len(rec.preload) > 0 {
-			_, _ = rec.cli.Write(rec.preload)
-		}
-		_ = rec.cli.CloseWrite()
-		m.delivered = append(m.delivered, rec)
-		m.base.Deliver(rec.srv)
-		e.Logf("%s=conn%d", c18OpNames[op], rec.idx)
+	case c18C5:
+		m.deliver(5, []byte{5, 1, 0})
+	case c18CG:
+		m.deliver('G', []byte("GET"))
+	case c18CE:
+		m.deliver(-1, nil)
 	}
+}
+
+// deliver hands a new incoming connection to the base listener: the client side has written
+// preload (first byte + pipelined bytes) and half-closed.
+func (m *c18Mux) deliver(first int, preload []byte) {
+	rec := &c18ConnRec{idx: m.nconn, first: first, preload: preload}
+	m.nconn++
+	rec.cli, rec.srv = vnet.Pipe(fmt.Sprintf("cli%d", rec.idx), fmt.Sprintf("conn%d", rec.idx), 64)
+	if len(rec.preload) > 0 {
+		_, _ = rec.cli.Write(rec.preload)
+	}
+	_ = rec.cli.CloseWrite()
+	m.delivered = append(m.delivered, rec)
+	m.base.Deliver(rec.srv)
+	m.e.Logf("conn(%d)=conn%d", first, rec.idx)
 }
 
 func (m *c18Mux) owner(c net.Conn) *c18ConnRec {
@@ -278,15 +316,15 @@ func (m *c18Mux) check() {
 		closed := r.srv.IsClosed()
 		switch {
 		case len(r.ret) > 1:
-			e.Fail("conn-returned-twice :: conn%d returned by %d Accept calls", r.idx, len(r.ret))
+			m.fail("conn-returned-twice :: conn%d returned by %d Accept calls", r.idx, len(r.ret))
 		case len(r.ret) == 1 && closed:
-			e.Fail("conn-accepted-and-closed :: conn%d handed to a sub-listener and closed by the mux", r.idx)
+			m.fail("conn-accepted-and-closed :: conn%d handed to a sub-listener and closed by the mux", r.idx)
 		case len(r.ret) == 0 && !closed:
 			where := "acceptLoop-closeChan"
 			if len(r.srv.Received) > 0 {
 				where = "dispatch-closeChan"
 			}
-			e.Fail("conn-neither-accepted-nor-closed@%s :: conn%d (first byte %d): read by mux %d bytes, Close calls %d, returned by no Accept", where, r.idx, r.first, len(r.srv.Received), r.srv.Closes)
+			m.fail("conn-neither-accepted-nor-closed@%s :: conn%d (first byte %d): read by mux %d bytes, Close calls %d, returned by no Accept", where, r.idx, r.first, len(r.srv.Received), r.srv.Closes)
 		}
 		if len(r.ret) == 0 {
 			e.Logf("conn%d(%d): closed=%v", r.idx, r.first, closed)
@@ -296,31 +334,31 @@ func (m *c18Mux) check() {
 		e.Logf("conn%d(%d): sub#%d socks=%v", r.idx, r.first, ret.sub.idx, ret.sub.socks)
 		switch {
 		case r.first < 0:
-			e.Fail("conn-eof-returned :: conn%d has no first byte but was handed to a sub-listener", r.idx)
+			m.fail("conn-eof-returned :: conn%d has no first byte but was handed to a sub-listener", r.idx)
 			continue
 		case (r.first == 5) != ret.sub.socks:
 			to := "http"
 			if ret.sub.socks {
 				to = "socks"
 			}
-			e.Fail("conn-misrouted@first-byte-0x%02x-to-%s :: conn%d", r.first, to, r.idx)
+			m.fail("conn-misrouted@first-byte-0x%02x-to-%s :: conn%d", r.first, to, r.idx)
 		}
 		// detection byte + pipelined bytes through the wrapper: zero-length read first
 		if n, err := ret.w.Read(nil); n != 0 || err != nil {
-			e.Fail("wrapper-zero-read :: Read(nil) = %d, %v", n, err)
+			m.fail("wrapper-zero-read :: Read(nil) = %d, %v", n, err)
 		}
 		got, _ := io.ReadAll(ret.w)
 		if !bytes.Equal(got, r.preload) {
-			e.Fail("wrapper-bytes-not-intact :: conn%d: client sent % x, handler read % x", r.idx, r.preload, got)
+			m.fail("wrapper-bytes-not-intact :: conn%d: client sent % x, handler read % x", r.idx, r.preload, got)
 		}
 	}
 }
 
-func c18MuxBody(progs []c18Prog) func(e *vsched.Exec) {
+func c18MuxBody(progs []c18Prog, crashOnly bool) func(e *vsched.Exec) {
 	return func(e *vsched.Exec) {
 		prog := progs[e.Choose(len(progs), vsched.KFree, "program")]
 		e.Logf("program: %s", prog)
-		m := &c18Mux{e: e, base: vnet.NewListener("base")}
+		m := &c18Mux{e: e, base: vnet.NewListener("base"), crashOnly: crashOnly}
 		m.pendingL = [2]int{prog.count(c18LS), prog.count(c18LH)}
 		m.ml = newMuxListener(m.base, func() { m.deleted++ })
 		m.run(prog[0]) // the Listen that made the manager create the mux
@@ -328,28 +366,49 @@ func c18MuxBody(progs []c18Prog) func(e *vsched.Exec) {
 			op := op
 			vsched.GoNamed(c18OpNames[op], func() { m.run(op) })
 		}
+		m.finish()
+	}
+}
+
+// c18FirstByteBody: both protocols registered, one Accept pending on each, one connection whose
+// first byte is any of the 256 values (cost-free choice).
+func c18FirstByteBody(e *vsched.Exec) {
+	b := e.Choose(256, vsched.KFree, "first-byte")
+	m := &c18Mux{e: e, base: vnet.NewListener("base")}
+	m.pendingL = [2]int{1, 1}
+	m.ml = newMuxListener(m.base, func() { m.deleted++ })
+	m.run(c18LS)
+	vsched.GoNamed("ListenHTTP", func() { m.run(c18LH) })
+	vsched.GoNamed("AcceptSOCKS", func() { m.run(c18AS) })
+	vsched.GoNamed("AcceptHTTP", func() { m.run(c18AH) })
+	vsched.GoNamed("conn", func() { m.deliver(b, []byte{byte(b), 5, 'G', 0}) })
+	m.finish()
+}
+
+// finish: wait for quiescence, tear down, run the final-state oracle.
+func (m *c18Mux) finish() {
+	e := m.e
+	e.WaitIdle()
+	// teardown: close whatever the program left open (a Close like any other)
+	for _, s := range m.subs {
+		if !s.closed {
+			s.closed = true
+			_ = s.l.Close()
+		}
+	}
+	e.WaitIdle()
+	if m.deleted == 0 {
+		// mainLoop snapshots the sub-listeners' close channels before it blocks in select; a
+		// Listen that registered after the snapshot is not watched, so its Close is noticed
+		// only at the next connection (see NOTES.md). One more incoming connection (immediate
+		// EOF, inside the oracle like any other) lets the mux see the closes and shut down.
+		e.Logf("mux still running after every sub-listener closed: poke")
+		m.run(c18CE)
 		e.WaitIdle()
-		// teardown: close whatever the program left open (a Close like any other)
-		for _, s := range m.subs {
-			if !s.closed {
-				s.closed = true
-				_ = s.l.Close()
-			}
-		}
-		e.WaitIdle()
-		if m.deleted == 0 {
-			// mainLoop snapshots the sub-listeners' close channels before it blocks in select; a
-			// Listen that registered after the snapshot is not watched, so its Close is noticed
-			// only at the next connection (see NOTES.md). One more incoming connection (immediate
-			// EOF, inside the oracle like any other) lets the mux see the closes and shut down.
-			e.Logf("mux still running after every sub-listener closed: poke")
-			m.run(c18CE)
-			e.WaitIdle()
-		}
-		m.check()
-		if m.deleted > 1 {
-			e.Fail("delete-func-called-twice :: %d", m.deleted)
-		}
+	}
+	m.check()
+	if m.deleted > 1 {
+		e.Fail("delete-func-called-twice :: %d", m.deleted)
 	}
 }
 
@@ -398,19 +457,34 @@ func c18Sig(o *vsched.Outcome) string {
 	return o.Kind + ":" + o.Detail
 }
 
-// Bounds: programs of <=4 operations with P<=2 (quick) / P<=3 (thorough) scheduling deviations,
-// programs of exactly 5 operations with P<=1 (quick) / P<=2 (thorough).
+// Bounds (P = scheduling deviations from the default schedule, "delay bounding"): programs of <=4
+// operations with P<=2 (quick) / P<=3 (thorough; the "route" family, in which no Close races with
+// a connection, stays at 2), programs of exactly 5 operations with P<=1 (quick) / P<=2 (thorough;
+// "route" stays at 1). Sized from measured runs: see NOTES.md.
 func c18MuxScenarios(_ bool) []*explore.Scenario {
 	mk := func(name string, progs []c18Prog, pq, pt int) *explore.Scenario {
-		return &explore.Scenario{Name: name, Quick: explore.Bounds{P: pq}, Thorough: explore.Bounds{P: pt}, Body: c18MuxBody(progs), Sig: c18Sig}
+		return &explore.Scenario{Name: name, Quick: explore.Bounds{P: pq}, Thorough: explore.Bounds{P: pt}, Body: c18MuxBody(progs, false), Sig: c18Sig}
 	}
+	// programs that register a protocol again after closing it while a connection of that
+	// protocol is around: L_t .. X_t .. L_t with a C_t anywhere
+	var relisten []c18Prog
+	for _, p := range c18ProgramsUpTo(4, "close") {
+		if c18Relisten(p) {
+			relisten = append(relisten, p)
+		}
+	}
+	rl := mk("mux-relisten", relisten, 2, 3)
+	rl.Body = c18MuxBody(relisten, true)
+	fb := &explore.Scenario{Name: "mux-firstbyte", Quick: explore.Bounds{P: 1}, Thorough: explore.Bounds{P: 2}, Body: c18FirstByteBody, Sig: c18Sig}
 	return []*explore.Scenario{
-		mk("mux-route", c18ProgramsUpTo(4, "route"), 2, 3),
-		mk("mux-unrouted", c18ProgramsUpTo(4, "unrouted"), 2, 3),
+		rl,
+		fb,
 		mk("mux", c18ProgramsUpTo(4, "close"), 2, 3),
-		mk("mux-route5", c18Programs(5, "route"), 1, 2),
-		mk("mux-unrouted5", c18Programs(5, "unrouted"), 1, 2),
+		mk("mux-unrouted", c18ProgramsUpTo(4, "unrouted"), 2, 3),
+		mk("mux-route", c18ProgramsUpTo(4, "route"), 2, 2),
 		mk("mux5", c18Programs(5, "close"), 1, 2),
+		mk("mux-unrouted5", c18Programs(5, "unrouted"), 1, 2),
+		mk("mux-route5", c18Programs(5, "route"), 1, 1),
 	}
 }
 
